@@ -26,8 +26,7 @@ def ctx_ok(eng, st, t, cr):
     roles = z3.Select(V.m(cv), z3.StringVal('roles'))
     j = z3.Int('cx!j')
     return z3.And(
-        z3.Or(V.is_dict(t), z3.And(V.is_obj(t), z3.Or(eng.isinst_ref(V.ref(t), 'dict'),
-                                                     eng.isinst_ref(V.ref(t), 'collections.abc.MutableMapping')))),
+        z3.Or(V.is_dict(t), z3.And(V.is_obj(t), clsof(V.ref(t)) == eng.cid('dict'))),
         V.is_dict(tv),
         z3.Or(V.is_dict(cr), z3.And(V.is_obj(cr), z3.Or(clsof(V.ref(cr)) == eng.cid('dict'),
                                                        clsof(V.ref(cr)) == eng.cid('$PolicyValues')))),
